@@ -614,6 +614,16 @@ static void sort_object(cJSON * const object, const cJSON_bool case_sensitive)
         return;
     }
     object->child = sort_list(object->child, case_sensitive);
+    if (object->child != NULL)
+    {
+        /* the first member's prev has to point to the last member again */
+        cJSON *last = object->child;
+        while (last->next != NULL)
+        {
+            last = last->next;
+        }
+        object->child->prev = last;
+    }
 }
 
 static cJSON_bool compare_json(cJSON *a, cJSON *b, const cJSON_bool case_sensitive)
